@@ -8,6 +8,7 @@ package interp
 
 import (
 	"fmt"
+	"math/big"
 	"math/bits"
 	"sort"
 	"strconv"
@@ -768,21 +769,81 @@ func collectVars(roots ...*Term) []*Term {
 
 // ---- evaluation under a model ---------------------------------------------
 
-// Model maps variable names to values (BV: masked uint64, Bool: 0/1, Int: int64 bits).
-type Model map[string]uint64
+// Model maps variable names to values: BV (masked) and Bool (0/1) in B,
+// Int-sorted variables in I.
+type Model struct {
+	B map[string]uint64
+	I map[string]*big.Int
+}
 
-// eval evaluates t under m; variables missing from m evaluate to 0.
-func (m Model) eval(t *Term, memo map[int]uint64) uint64 {
+func NewModel() *Model { return &Model{B: map[string]uint64{}, I: map[string]*big.Int{}} }
+
+type evalMemo struct {
+	b map[int]uint64
+	i map[int]*big.Int
+}
+
+// evalI evaluates an Int-sorted term.
+func (m *Model) evalI(t *Term, memo *evalMemo) *big.Int {
+	if b, ok := intConstBig(t); ok {
+		return b
+	}
+	if v, ok := memo.i[t.id]; ok {
+		return v
+	}
+	var r *big.Int
+	switch t.op {
+	case OpVar:
+		r = m.I[t.name]
+		if r == nil {
+			r = new(big.Int)
+		}
+	case OpIte:
+		if m.eval(t.args[0], memo) != 0 {
+			r = m.evalI(t.args[1], memo)
+		} else {
+			r = m.evalI(t.args[2], memo)
+		}
+	case OpINeg:
+		r = new(big.Int).Neg(m.evalI(t.args[0], memo))
+	default:
+		a, b := m.evalI(t.args[0], memo), m.evalI(t.args[1], memo)
+		r = new(big.Int)
+		switch t.op {
+		case OpIAdd:
+			r.Add(a, b)
+		case OpISub:
+			r.Sub(a, b)
+		case OpIMul:
+			r.Mul(a, b)
+		case OpIDiv:
+			if b.Sign() != 0 {
+				r.Div(a, b)
+			}
+		case OpIMod:
+			if b.Sign() != 0 {
+				r.Mod(a, b)
+			}
+		default:
+			panic("evalI: unexpected op")
+		}
+	}
+	memo.i[t.id] = r
+	return r
+}
+
+// eval evaluates a Bool or BV term under m; variables missing from m evaluate to 0.
+func (m *Model) eval(t *Term, memo *evalMemo) uint64 {
 	if t.op == OpConst {
 		return t.val
 	}
-	if v, ok := memo[t.id]; ok {
+	if v, ok := memo.b[t.id]; ok {
 		return v
 	}
 	var r uint64
 	switch t.op {
 	case OpVar:
-		r = m[t.name]
+		r = m.B[t.name]
 	case OpNot:
 		r = 1 - m.eval(t.args[0], memo)
 	case OpAnd:
@@ -808,7 +869,19 @@ func (m Model) eval(t *Term, memo map[int]uint64) uint64 {
 			r = m.eval(t.args[2], memo)
 		}
 	case OpEq:
-		if m.eval(t.args[0], memo) == m.eval(t.args[1], memo) {
+		if t.args[0].sort.W < 0 {
+			if m.evalI(t.args[0], memo).Cmp(m.evalI(t.args[1], memo)) == 0 {
+				r = 1
+			}
+		} else if m.eval(t.args[0], memo) == m.eval(t.args[1], memo) {
+			r = 1
+		}
+	case OpILt:
+		if m.evalI(t.args[0], memo).Cmp(m.evalI(t.args[1], memo)) < 0 {
+			r = 1
+		}
+	case OpILe:
+		if m.evalI(t.args[0], memo).Cmp(m.evalI(t.args[1], memo)) <= 0 {
 			r = 1
 		}
 	case OpBvNot:
@@ -827,19 +900,34 @@ func (m Model) eval(t *Term, memo map[int]uint64) uint64 {
 		a := mkConst(t.args[0].sort, m.eval(t.args[0], memo))
 		b := mkConst(t.args[1].sort, m.eval(t.args[1], memo))
 		r = mkBvCmp(t.op, a, b).val
-	case OpIAdd, OpISub, OpIMul, OpIDiv, OpIMod, OpILt, OpILe, OpINeg:
-		r = evalInt(t, m, memo)
 	default:
 		a := mkConst(t.args[0].sort, m.eval(t.args[0], memo))
 		b := mkConst(t.args[1].sort, m.eval(t.args[1], memo))
 		r = mkBv(t.op, a, b).val
 	}
-	memo[t.id] = r
+	memo.b[t.id] = r
 	return r
 }
 
-func (m Model) Eval(t *Term) uint64 { return m.eval(t, map[int]uint64{}) }
+func newMemo() *evalMemo { return &evalMemo{b: map[int]uint64{}, i: map[int]*big.Int{}} }
 
-func (m Model) EvalBool(t *Term) bool { return m.Eval(t) != 0 }
+// Eval returns the value of a Bool/BV term, or the low 64 bits (two's
+// complement) of an Int term.
+func (m *Model) Eval(t *Term) uint64 {
+	if t.sort.W < 0 {
+		v := m.evalI(t, newMemo())
+		return bigBits(v)
+	}
+	return m.eval(t, newMemo())
+}
+
+func bigBits(v *big.Int) uint64 {
+	if v.Sign() >= 0 {
+		return new(big.Int).And(v, new(big.Int).SetUint64(^uint64(0))).Uint64()
+	}
+	return uint64(v.Int64())
+}
+
+func (m *Model) EvalBool(t *Term) bool { return m.Eval(t) != 0 }
 
 var _ = bits.Len64
